@@ -112,6 +112,13 @@ def delivery(rnd, case, keys, lims):
         case['shape'] = shape
     if case['ell'] == 'grs80' and rnd.random() < 0.3:
         case['omit_default_ellipsoid'] = True
+    k = core.choose_interleave(rnd)
+    if k:
+        # a complete other call of the same function (another line, another ellipsoid) made at the k-th statement boundary
+        # inside the judged call
+        case['interleave'] = {'at': k, 'twin': [rnd.uniform(-80, 80), rnd.uniform(-180, 180), rnd.uniform(-80, 80) if 'lat2' in keys else rnd.uniform(0, 360),
+                                                rnd.uniform(-180, 180) if 'lat2' in keys else 10 ** rnd.uniform(0, 7)],
+                              'twin_ell': rnd.choice(['grs80', 'ans', 'intl24', [6377000.0, 297.0]])}
 
 
 # ---------------------------------------------------------------------------------------------
@@ -166,7 +173,13 @@ def call_geodesy(ns, ctx, case, fname, names, values):
         ctx.count('default_ellipsoid_left_out')
     if case.get('rep'):
         ctx.count('argument_representation:' + case['rep'])
-    return core.shaped_call(getattr(ns.geodesy, fname), names, values, case.get('shape'), omit)
+    fn = getattr(ns.geodesy, fname)
+    il = case.get('interleave')
+    if il:
+        targs = list(il['twin']) + [tmwork.ell_obj(ns, il['twin_ell'])]
+        return core.interleaved(ctx, il['at'], lambda: fn(*targs),
+                                lambda: core.shaped_call(fn, names, values, case.get('shape'), omit))
+    return core.shaped_call(fn, names, values, case.get('shape'), omit)
 
 
 def judge_direct(ns, ctx, case):
